@@ -111,6 +111,12 @@ pub fn run_prop(ctx: &Ctx, sink: &mut Sink) {
             _ => {}
         }
         toks.push("delete".into());
+        // something that depends on the action's truth: it is false for an entry it could not remove
+        match rng.below(6) {
+            0 => toks.push(format!("vp:{}", crate::wire::hex(b"D:"))),
+            1 => { toks.push("o".into()); toks.push(format!("vp:{}", crate::wire::hex(b"K:"))); }
+            _ => {}
+        }
         let before = snapshot(&sc.dir);
         let mut args: Vec<String> = vec![];
         // (among several of -H -L -P the last one decides)
